@@ -151,3 +151,38 @@ CHECKS["C17"] = {
     "note": "Misuse not named by the property (Apply after writing, ReadFrom after Write, WriteTo after a partial Read) is modelled as "
             "the code behaves (error, then error state); only hang/panic/lost or duplicated data would be rejected there.",
 }
+
+_RF_TECH = ("TLA+ frame-format specification LZ4Frame.tla (ParseLenient: C19's header rule, everything else of the format); valid "
+            "frames from the real Writer are transformed, read by the real Reader in every configuration class, and every recorded "
+            "observation is judged by TLC trace validation (LZ4Frame_Trace), which parses the very bytes itself for inputs up to 360 "
+            "bytes and uses the reference parser's summary above that")
+CHECKS["C05"] = {
+    "technique": _RF_TECH,
+    "text": "For every mutant (all single-bit flips of small frames, flips at every structural byte of multi-block frames, sampled "
+            "payload flips, block deletion/duplication/swap, end-mark deletion, splices) read to a clean end, TLC's own parse of the "
+            "same bytes must be 'ok' with identical content - which entails header checksum, every declared block checksum, end "
+            "mark and content checksum. Read and WriteTo, concurrency 1/2/4.",
+    "design_ref": "DESIGN.md section 5 (C05)",
+    "note": "Legacy frames: the Linux-kernel trailer rule (a word equal to the bytes decoded so far ends the stream) is part of the "
+            "specification as this package documents it.",
+}
+CHECKS["C06"] = {
+    "technique": _RF_TECH + "; MC_LZ4Frame proves at design level that every proper prefix of an encoded frame parses as 'truncated'",
+    "text": "Every prefix length 1..len-1 of small frames and every structural boundary +-3 bytes plus sampled interior positions of "
+            "multi-block frames is read with each reader configuration; the trace specification requires an error other than a "
+            "clean end (legacy: except exactly at a block boundary), delivered bytes that are a prefix of the content, and - at byte "
+            "level - that TLC's parse of the cut bytes is indeed 'truncated'.",
+    "design_ref": "DESIGN.md section 5 (C06)",
+    "note": "Clean = Read returning exactly io.EOF, or WriteTo returning nil.",
+}
+CHECKS["C07"] = {
+    "technique": _RF_TECH + "; sensors: per-case watchdog, process exit status, goroutine stack scan, sampled peak heap",
+    "text": "Hostile inputs built by field class (every first word around the three magic ranges, skippable lengths up to 2^32-1, "
+            "block sizes up to 2^31-1 with/without the stored bit, content size 2^64-1, millions of repetitions of a legacy magic / "
+            "skippable frame / empty block / whole frame), seeded random bytes and mutants are read sequentially and concurrently in "
+            "child processes; the trace specification requires termination with data and/or error, ErrInvalidFrame exactly when TLC's "
+            "parse says bad magic (so exactly the sixteen skippable magics skip), peak heap growth bounded by the declared block "
+            "maximum, and no library goroutine left.",
+    "design_ref": "DESIGN.md section 5 (C07)",
+    "note": "Repetition counts up to 3*10^6 (quick) / 2*10^7 (thorough); the allocation bound has slack (64 MiB + 2*(conc+3) blocks).",
+}
